@@ -40,9 +40,9 @@ package bcl
 //@   requires [C09] buffer_fits: len(p) >= vlen(v)
 //@   ensures [C09,C14] length: result == vlen(v)
 //@   ensures [C09,C14] type_byte: p[0] == byte(vcode(v))
-//@   ensures [C09,C14] int_layout: is_int(v) ==> (forall i int :: 1 <= i && i < vlen(v) ==> p[i] == uvbyte(zz(as_int(v)), i - 1))
-//@   ensures [C09,C14] float_layout: is_float(v) ==> (forall i int :: 1 <= i && i < 9 ==> p[i] == lsbyte(fbits64(as_float(v)), 8 - i))
-//@   ensures [C09,C14] string_length_layout: is_str(v) ==> (forall i int :: 1 <= i && i < 1 + uvlen(uint64(len(as_str(v)))) ==> p[i] == uvbyte(uint64(len(as_str(v))), i - 1))
+//@   ensures [C09,C14] int_layout: is_int(v) ==> (forall k int :: 0 <= k && k < uvlen(zz(as_int(v))) ==> p[1 + k] == uvbyte(zz(as_int(v)), k))
+//@   ensures [C09,C14] float_layout: is_float(v) ==> (forall k int :: 0 <= k && k < 8 ==> p[1 + k] == lsbyte(fbits64(as_float(v)), 7 - k))
+//@   ensures [C09,C14] string_length_layout: is_str(v) ==> (forall k int :: 0 <= k && k < uvlen(uint64(len(as_str(v)))) ==> p[1 + k] == uvbyte(uint64(len(as_str(v))), k))
 //@   ensures [C09,C14] string_bytes_layout: is_str(v) ==> (forall i int :: 0 <= i && i < len(as_str(v)) ==> p[1 + uvlen(uint64(len(as_str(v)))) + i] == as_str(v)[i])
 //@   ensures [C09,C14] bool_layout: is_bool(v) ==> p[1] == (as_bool(v) ? 1 : 0)
 //@   modifies p[0..vlen(v))
